@@ -140,6 +140,11 @@ def run(c):
             cases.append(dict(k="encdisp", fam=fam, mt=mt, m=""))
     for mt in (0, 65, 193, 255):
         cases.append(dict(k="encdisp", fam="none", mt=mt, m=""))
+        for sht in (1, 2, 3, 4, 15):       # no body, but the SecurityHeader view filled in by earlier security processing
+            cases.append(dict(k="encdisp", fam="none", mt=mt, m="", sht=sht))
+    for fam in ("gmm", "gsm"):
+        for mt in (0x41, 0x5D, 0xC1, 0xD1, 0, 255):
+            cases.append(dict(k="encdisp", fam=fam, mt=mt, m="", sht=2))
     events, hang = run_codec(c, drv, cases)
     if hang is not None:
         c.report("Dispatch", "hang", "case %d did not return" % hang, cases[hang]); events = events[:hang]
